@@ -184,6 +184,10 @@ func (obj *Vector) Adjust(
 				content[i] = initElement
 			}
 			initContent = content
+		} else {
+			// The new vector has elements of its own, not the storage of
+			// the :initial-contents list.
+			initContent = append(List{}, initContent...)
 		}
 		vv := NewVector(dims[0], elementType, initElement, initContent, false)
 		vv.FillPtr = fillPtr
